@@ -133,6 +133,11 @@ def _starred(elts, env, funcs, depth):
     return out
 
 
+# base classes of the exception names that matter for `except` clauses (builtins, and pendulum's ParserError(ValueError))
+_EXC_BASES = {"ParserError": ("ValueError",), "OverflowError": ("ArithmeticError",), "ZeroDivisionError": ("ArithmeticError",), "KeyError": ("LookupError",),
+              "IndexError": ("LookupError",), "NonExistingTime": ("PendulumException",), "AmbiguousTime": ("PendulumException",), "InvalidTimezone": ("ValueError",)}
+
+
 class Raised(ValueError):
     """a `raise` statement of the analysed code was reached; `exc_name` is the class it names"""
 
@@ -347,7 +352,15 @@ def ev(n: ast.AST, env: dict[str, Any], funcs: dict[str, ast.FunctionDef] | None
             if isinstance(recv, _OPEN) or recv is _dt or (isinstance(recv, type) and recv in _STD_CLASSES):
                 f = _attr(recv, n.func.attr, funcs, depth)
                 if callable(f):
-                    return f(*args, **kws)
+                    std = (isinstance(f, type) and f in _STD_CLASSES) or isinstance(recv, (_dt.timedelta, _dt.datetime, _dt.date, _dt.time)) \
+                        or (isinstance(recv, type) and recv in _STD_CLASSES)
+                    if not std:
+                        return f(*args, **kws)
+                    try:
+                        return f(*args, **kws)
+                    except (ValueError, OverflowError) as e:
+                        # what the standard library raises for these arguments (date(2015, 2, 29)): an outcome of the analysed code
+                        raise Raised(f"raise reached: {type(e).__name__}: {e}", type(e).__name__) from None
             if isinstance(recv, (dict, set, frozenset, list, tuple)) and n.func.attr in ("get", "keys", "values", "items", "index", "count"):
                 return getattr(recv, n.func.attr)(*args, **kws)
         raise Unsupported(f"call `{un(n)[:50]}`")
@@ -488,7 +501,8 @@ def run(stmts: list[ast.stmt], env: dict[str, Any], funcs: dict[str, ast.Functio
                 except Raised as e:
                     for h in s.handlers:
                         names = [] if h.type is None else [un(x) for x in (h.type.elts if isinstance(h.type, ast.Tuple) else [h.type])]
-                        if h.type is None or e.exc_name in names or "Exception" in names or "BaseException" in names:
+                        if h.type is None or e.exc_name in names or "Exception" in names or "BaseException" in names \
+                                or any(b in names for b in _EXC_BASES.get(e.exc_name, ())):
                             if h.name:
                                 env[h.name] = e
                             try:
